@@ -384,6 +384,7 @@ func newEnvPickler() pickle.PicklerFunc {
 // - Function code is pickled as (NEWOBJ "dawn" "FunctionCode" (module, globals, bytecode))
 // - Functions are pickled as (NEWOBJ "dawn" "Function" (defaults, freevars, code)).
 // - The missing default of a mandatory keyword-only parameter is pickled as (NEWOBJ "dawn" "Mandatory" ()).
+// - Ranges are pickled as (NEWOBJ "dawn" "Range" (text,)).
 func envPickler(x starlark.Value) (module, name string, args starlark.Tuple, err error) {
 	switch x := x.(type) {
 	case *function:
@@ -406,6 +407,11 @@ func envPickler(x starlark.Value) (module, name string, args starlark.Tuple, err
 		// default of each mandatory keyword-only parameter.
 		if x.Type() == "mandatory" {
 			return "dawn", "Mandatory", starlark.Tuple{}, nil
+		}
+		// A range would otherwise be written as the list of its elements, which a function can
+		// tell from it.
+		if x.Type() == "range" {
+			return "dawn", "Range", starlark.Tuple{starlark.String(x.String())}, nil
 		}
 		return "", "", nil, pickle.ErrCannotPickle
 	}
@@ -436,6 +442,11 @@ func envUnpickler(module, name string, args starlark.Tuple) (starlark.Value, err
 		return args, nil
 	case "Mandatory":
 		return starlark.String("mandatory"), nil
+	case "Range":
+		if len(args) != 1 {
+			return nil, fmt.Errorf("expcted 1 arg, got %v", len(args))
+		}
+		return args, nil
 	case "Builtin":
 		if len(args) > 2 {
 			return nil, fmt.Errorf("expected at most 2 args, got %v", len(args))
